@@ -6,7 +6,7 @@ import c01, c12, consume
 
 CONFIGS_QUICK = ["F_all", "F_def", "F_noenc"]  # every configuration whose cfg-gated code the property depends on
 CONFIGS_THOROUGH = ["F_all", "F_def", "F_noenc"]
-TECHNIQUE = 'static analysis: macro-provenance sibling check (async = sync macro bodies), path summaries consumed=advanced on MIR paths, loop-carried state rule, split-terminator table, running counters from loop back edges, one-whitespace-notion rule'
+TECHNIQUE = 'static analysis: macro-provenance sibling check (async = sync macro bodies), path summaries consumed=advanced on MIR paths, loop-carried state rule, split-terminator table, running counters from loop back edges, one-whitespace-notion rule, exact-amount rule for the four raw-stream (BinaryStream) position updates'
 EXPLANATION = (
     "Async bodies are instantiations of the same macro_rules! as their sync siblings (every statement of the async source "
     "helpers and event loop carries the macro provenance impl_buffered_source / read_event_impl / read_until_close / "
